@@ -120,6 +120,15 @@ pub fn run_case(
             ),
         ));
     }
+    for (side, c, o) in [("A", &s1.a_carried, &s1.a), ("B", &s1.b_carried, &s1.b)] {
+        if let Some(m) = c.mismatch(o) {
+            bad.push((
+                "outcome_reports_what_was_carried",
+                wit(json!({"side": side})),
+                format!("{side}: {m}"),
+            ));
+        }
+    }
     // second session transfers nothing
     match run_session(&mut pa, &mut pb, ns, cfg, bound, None) {
         Err(e) => bad.push((
